@@ -45,10 +45,22 @@ Definition rank_ext (rank : A -> A -> comparison) (t m : ident) (r : val A) (arg
     end
   else None.
 
+(* list.GetIndex compares through a fresh default collator: Collator[V]().Make() and its CompareValues are answered
+   by the oracle [cmp_ext eqb] *)
+Definition cmp_ext (eqb : A -> A -> bool) (t m : ident) (r : val A) (args : list (val A)) : option (val A) :=
+  if Pos.eqb t id_collatorClass_ && Pos.eqb m id_Make then
+    match args with [] => Some col_val | _ => None end
+  else if Pos.eqb t id_collator_ && Pos.eqb m id_CompareValues then
+    match args with
+    | [VElem a; VElem b] => Some (VBool (eqb a b))
+    | _ => None
+    end
+  else None.
+
 (* no external methods are needed by the other functions translated so far *)
 Definition no_ext (t m : ident) (r : val A) (args : list (val A)) : option (val A) := None.
 End Rep.
 
 Arguments elems {A}. Arguments it_val {A}. Arguments arr_val {A}. Arguments lcls_val {A}.
 Arguments lst_val {A}. Arguments stk_val {A}. Arguments no_ext {A}.
-Arguments col_val {A}. Arguments set_val {A}. Arguments rank_ext {A}.
+Arguments col_val {A}. Arguments set_val {A}. Arguments rank_ext {A}. Arguments cmp_ext {A}.
